@@ -370,6 +370,8 @@ impl LpgStore {
             let label_id = self.get_or_create_label_id(*label);
             node_label_set.insert(label_id);
 
+            #[cfg(grafeodb_grafeo_verif)]
+            grafeo_common::verif::yield_point("lpg.create_node.label_index");
             // Update label index
             let mut index = self.label_index.write();
             while index.len() <= label_id as usize {
@@ -378,11 +380,15 @@ impl LpgStore {
             index[label_id as usize].insert(id, ());
         }
 
+        #[cfg(grafeodb_grafeo_verif)]
+        grafeo_common::verif::yield_point("lpg.create_node.node_labels");
         // Store node's labels
         self.node_labels.write().insert(id, node_label_set);
 
         // Create version chain with initial version
         let chain = VersionChain::with_initial(record, epoch, tx_id);
+        #[cfg(grafeodb_grafeo_verif)]
+        grafeo_common::verif::yield_point("lpg.create_node.nodes");
         self.nodes.write().insert(id, chain);
         id
     }
@@ -667,6 +673,8 @@ impl LpgStore {
     /// Deletes a node at a specific epoch.
     #[cfg(not(feature = "tiered-storage"))]
     pub fn delete_node_at_epoch(&self, id: NodeId, epoch: EpochId) -> bool {
+        #[cfg(grafeodb_grafeo_verif)]
+        grafeo_common::verif::yield_point("lpg.delete_node");
         let mut nodes = self.nodes.write();
         if let Some(chain) = nodes.get_mut(&id) {
             // Check if visible at this epoch (not already deleted)
@@ -856,6 +864,8 @@ impl LpgStore {
         // must not interleave with another writer of this node (two writers
         // would each retract the same old value and leave a stale index entry)
         // nor with delete_node; the node table lock serialises them.
+        #[cfg(grafeodb_grafeo_verif)]
+        grafeo_common::verif::yield_point("lpg.set_node_property");
         let mut nodes = self.nodes.write();
 
         // Update property index before setting the property (needs to read old value)
@@ -900,6 +910,8 @@ impl LpgStore {
         let prop_key: PropertyKey = key.into();
 
         // Serialised with other property writers of the node (see set_node_property)
+        #[cfg(grafeodb_grafeo_verif)]
+        grafeo_common::verif::yield_point("lpg.remove_node_property");
         let mut nodes = self.nodes.write();
 
         // Update property index before removing (needs to read old value)
@@ -1399,6 +1411,8 @@ impl LpgStore {
         // label index, and taking this lock last (while still holding the label
         // index, as before) inverts the order delete_node uses and can deadlock.
         // Lock order: nodes, then node_labels / label_index one at a time.
+        #[cfg(grafeodb_grafeo_verif)]
+        grafeo_common::verif::yield_point("lpg.add_label.update");
         let mut nodes = self.nodes.write();
         let Some(chain) = nodes.get_mut(&node_id) else {
             return false;
@@ -1518,6 +1532,8 @@ impl LpgStore {
         };
 
         // Node table write-locked for the whole update (see add_label)
+        #[cfg(grafeodb_grafeo_verif)]
+        grafeo_common::verif::yield_point("lpg.remove_label.update");
         let mut nodes = self.nodes.write();
         let Some(chain) = nodes.get_mut(&node_id) else {
             return false;
@@ -1708,11 +1724,17 @@ impl LpgStore {
 
         let record = EdgeRecord::new(id, src, dst, type_id, epoch);
         let chain = VersionChain::with_initial(record, epoch, tx_id);
+        #[cfg(grafeodb_grafeo_verif)]
+        grafeo_common::verif::yield_point("lpg.create_edge.edges");
         self.edges.write().insert(id, chain);
 
         // Update adjacency
+        #[cfg(grafeodb_grafeo_verif)]
+        grafeo_common::verif::yield_point("lpg.create_edge.forward");
         self.forward_adj.add_edge(src, dst, id);
         if let Some(ref backward) = self.backward_adj {
+            #[cfg(grafeodb_grafeo_verif)]
+            grafeo_common::verif::yield_point("lpg.create_edge.backward");
             backward.add_edge(dst, src, id);
         }
 
@@ -1916,6 +1938,8 @@ impl LpgStore {
     /// Deletes an edge at a specific epoch.
     #[cfg(not(feature = "tiered-storage"))]
     pub fn delete_edge_at_epoch(&self, id: EdgeId, epoch: EpochId) -> bool {
+        #[cfg(grafeodb_grafeo_verif)]
+        grafeo_common::verif::yield_point("lpg.delete_edge.edges");
         let mut edges = self.edges.write();
         if let Some(chain) = edges.get_mut(&id) {
             // Get the visible record to check if deleted and get src/dst
@@ -1937,12 +1961,18 @@ impl LpgStore {
             drop(edges); // Release lock
 
             // Mark as deleted in adjacency (soft delete)
+            #[cfg(grafeodb_grafeo_verif)]
+            grafeo_common::verif::yield_point("lpg.delete_edge.forward");
             self.forward_adj.mark_deleted(src, id);
             if let Some(ref backward) = self.backward_adj {
+                #[cfg(grafeodb_grafeo_verif)]
+                grafeo_common::verif::yield_point("lpg.delete_edge.backward");
                 backward.mark_deleted(dst, id);
             }
 
             // Remove properties
+            #[cfg(grafeodb_grafeo_verif)]
+            grafeo_common::verif::yield_point("lpg.delete_edge.props");
             self.edge_properties.remove_all(id);
 
             true
@@ -2777,6 +2807,8 @@ impl LpgStore {
             }
         }
 
+        #[cfg(grafeodb_grafeo_verif)]
+        grafeo_common::verif::yield_point("lpg.label_id.write");
         let mut label_to_id = self.label_to_id.write();
         let mut id_to_label = self.id_to_label.write();
 
